@@ -68,12 +68,12 @@ class TakeAxis(Contract):
         yield "other-axes-are-copies", all(result.axes[e] is not arr.axes[e] and not S.same_buffer(result.axes[e].values, labels[e])
                                           for e in range(case["rank"]) if e != d)
         shape = [S.n(L) if e != d else m for e, L in enumerate(labels)]
-        yield "cells", S.forall_nd(shape, lambda *ks: S.at(result.values, *ks) == cell(S, data, ks, d, src(ks[d])))
+        yield "cells", S.forall_nd(shape, lambda *ks: S.same(S.at(result.values, *ks), cell(S, data, ks, d, src(ks[d]))))
         yield "metadata-copied", S.land(dict(result.attrs) == {"units": "K"}, result.attrs is not arr.attrs)
         yield "operand-untouched", S.land(arr.values is data, *[arr.axes[e].values is labels[e] for e in range(case["rank"])])
 
     def canaries(self, S, case, env, result):
-        yield "labels-stay-in-place", S.forall(0, S.n(env["idx"]), lambda k: S.at(result.axes[case["d"]].values, k) == S.at(env["labels"][case["d"]], k))
+        yield "one-label-too-many", S.n(result.axes[case["d"]].values) == S.n(env["idx"]) + 1
 
 
 class ReindexAxis(Contract):
@@ -157,7 +157,7 @@ class ReindexAxis(Contract):
         # slices of present labels travel with their label
         yield "present-labels-keep-their-slice", S.forall_nd(shape, lambda *ks: S.forall(0, n, lambda p: S.implies(
             S.at(L, p) == S.at(new, ks[d]) if case["method"] != "right" else False,
-            lambda: S.at(rv, *ks) == cell(S, data, ks, d, p))))
+            lambda: S.same(S.at(rv, *ks), cell(S, data, ks, d, p)))))
         if case["method"] is None:
             yield "missing-labels-are-filled-with-nan", S.forall_nd(shape, lambda *ks: S.implies(
                 self._missing(S, env, case, ks[d]), lambda: S.isnan(S.at(rv, *ks))))
@@ -173,10 +173,10 @@ class ReindexAxis(Contract):
                 is_last = S.land(S.forall(0, n, lambda i: S.lnot(above(S.at(L, i), x))), S.forall(0, n, lambda i: S.at(L, i) <= S.at(L, p)))
                 return S.lor(is_next, is_last)
             yield "neighbour-in-sorted-order-as-searchsorted", S.forall_nd(shape, lambda *ks: S.forall(0, n, lambda p: S.implies(
-                neighbour(ks, p), lambda: S.at(rv, *ks) == cell(S, data, ks, d, p))))
+                neighbour(ks, p), lambda: S.same(S.at(rv, *ks), cell(S, data, ks, d, p)))))
         yield "metadata-copied", S.land(dict(result.attrs) == {"units": "K"}, result.attrs is not arr.attrs)
         yield "operand-untouched", S.land(
-            S.forall_nd(S.shape(data), lambda *p: S.at(arr.values, *p) == S.at(data, *p)),
+            S.forall_nd(S.shape(data), lambda *p: S.same(S.at(arr.values, *p), S.at(data, *p))),
             tuple(arr.dims) == tuple("x%d" % e for e in range(case["rank"])),
             *[S.forall(0, S.n(labels[e]), lambda k, e=e: S.at(arr.axes[e].values, k) == S.at(labels[e], k)) for e in range(case["rank"])])
 
@@ -218,7 +218,7 @@ class SortAxis(Contract):
         yield "other-axes-equal", other_axes_equal(S, result, labels, d)
         shape = [S.n(Lb) for Lb in labels]
         yield "every-slice-moves-with-its-label", S.forall_nd(shape, lambda *ks: S.forall(0, n, lambda p: S.implies(
-            S.at(L, p) == S.at(Lr, ks[d]), lambda: S.at(rv, *ks) == cell(S, data, ks, d, p))))
+            S.at(L, p) == S.at(Lr, ks[d]), lambda: S.same(S.at(rv, *ks), cell(S, data, ks, d, p)))))
         rank = S.sort_rank(L)
         yield "every-label-lands-at-its-sorted-rank", S.forall(0, n, lambda p: S.land(
             0 <= S.at(rank, p), S.at(rank, p) < n, S.implies(S.land(0 <= S.at(rank, p), S.at(rank, p) < n), lambda: S.at(Lr, S.at(rank, p)) == S.at(L, p))))
